@@ -896,8 +896,10 @@ def tsan_harness(ctx, res):
     """positive / negative control of the detector itself, and the concrete twin of the Lean counterexample"""
     exe = ctx.harness("c16", variant="tsan")
     out = {}
-    for op in ("race-unguarded-reader", "norace-guarded-reader", "norace-main-phase"):
-        logp = os.path.join(ctx.tmp, "h_tsan_" + op)
+    size = 3000 if ctx.tier == "thorough" else 1200
+    for op0 in ("race-unguarded-reader", "norace-guarded-reader", "norace-main-phase"):
+        op = "%s %d" % (op0, size)
+        logp = os.path.join(ctx.tmp, "h_tsan_" + op0)
         env = {"TSAN_OPTIONS": "halt_on_error=0:exitcode=0:log_path=%s" % logp}
         for wrap in ([], ["setarch", "x86_64", "-R"]):
             rc, lines, err = core.run_lines(wrap + [exe], [], [op], timeout=300, env=env)
@@ -905,11 +907,18 @@ def tsan_harness(ctx, res):
                 break
         text = ""
         for fn in sorted(os.listdir(ctx.tmp)):
-            if fn.startswith("h_tsan_" + op):
+            if fn.startswith("h_tsan_" + op0):
                 text += open(os.path.join(ctx.tmp, fn), errors="replace").read()
+                os.remove(os.path.join(ctx.tmp, fn))
         reps = TS.parse_reports(text + "\n" + err)
         races = [r for r in reps if r["kind"] == "data race"]
         inreader = [r for r in races if "getUnmatchedInlineSuppressions" in r["raw"]]
+        if op0 == "race-unguarded-reader" and not inreader:
+            # a starved reader thread (loaded machine) may never overlap with the writer: one retry with the full size
+            rc, lines, reps, err = run_harness_tsan(ctx, exe, ["%s 3000" % op0], "retry")
+            races = [r for r in reps if r["kind"] == "data race"]
+            inreader = [r for r in races if "getUnmatchedInlineSuppressions" in r["raw"]]
+        op = op0
         out[op] = dict(rc=rc, out=lines, races=len(races), in_reader=len(inreader), sample=(races[0]["raw"][:1200] if races else ""))
         res.case("tsan-harness|" + op, True, dict(tie="tsan-harness", op=op, out=lines, races=len(races)))
     ok = out["race-unguarded-reader"]["in_reader"] > 0 and out["norace-guarded-reader"]["races"] == 0 and out["norace-main-phase"]["races"] == 0
@@ -953,12 +962,27 @@ def tsan_pairs(ctx, res, M):
         missing = [m for m in worker_phase_methods(M, cls) if m not in known[tag] and not all(
             mm["static"] for mm in M["ex"].classes[cls]["methods"] if mm["name"] == m)]
         res.extra.setdefault("tsan_pairs", {})[cls] = dict(worker_phase_methods=wm, not_in_harness=missing)
-        for i, a in enumerate(wm):
-            for b in wm[i:]:
-                ops.append("pair %s %s %s" % (tag, a, b))
+        pairs = [(a, b) for i, a in enumerate(wm) for b in wm[i:]]
+        if ctx.tier != "thorough":
+            # quick tier: a seeded sample in which every worker-phase member function occurs at least twice, shorter loops
+            ctx.rng.shuffle(pairs)
+            cnt = {m: 0 for m in wm}
+            pick = []
+            for (a, b) in pairs:
+                if cnt[a] < 2 or cnt[b] < 2:
+                    pick.append((a, b))
+                    cnt[a] += 1
+                    cnt[b] += 1
+            pairs = pick
+        for (a, b) in pairs:
+            ops.append("pair %s %s %s %d" % (tag, a, b, 300 if ctx.tier == "thorough" else 150))
     # control of this very machinery: a writer paired with the unguarded main-phase reader must be reported
-    rc0, lines0, reps0, err0 = run_harness_tsan(ctx, exe, ["pair S addSuppression getUnmatchedInlineSuppressions"], "pairctl")
-    ctl = any(r["kind"] == "data race" and "getUnmatchedInlineSuppressions" in r["raw"] for r in reps0)
+    ctl = False
+    for n in (300, 1500, 6000):       # retried with longer loops: on a loaded machine one thread may be starved
+        rc0, lines0, reps0, err0 = run_harness_tsan(ctx, exe, ["pair S addSuppression getUnmatchedInlineSuppressions %d" % n], "pairctl")
+        ctl = any(r["kind"] == "data race" and "getUnmatchedInlineSuppressions" in r["raw"] for r in reps0)
+        if ctl:
+            break
     unguarded_main = any(e["method"] == "getUnmatchedInlineSuppressions" and e["phase"] == "main" and any(not h for (k, l, h) in X.accesses(e["ir"])) for e in M["main"])
     res.oblig("tsan:pair-control", ctl or not unguarded_main, "machinery",
               "" if ctl or not unguarded_main else "the pair stress did not make ThreadSanitizer report addSuppression || getUnmatchedInlineSuppressions: %s %s" % (lines0, err0[-300:]))
@@ -966,7 +990,7 @@ def tsan_pairs(ctx, res, M):
     okrun = rc == 0 and len(lines) == len(ops) and all(l.endswith("done") for l in lines)
     res.oblig("tsan:pair-harness-ran", okrun, "machinery", "" if okrun else "rc=%s lines=%d/%d %s" % (rc, len(lines), len(ops), err[-500:]))
     for op in ops:
-        res.case("tsan-pair|" + op, True, dict(tie="tsan-pair", op=op) if op.endswith("addSuppression addSuppression") else None)
+        res.case("tsan-pair|" + op, True, dict(tie="tsan-pair", op=op) if "addSuppression addSuppression" in op or op is ops[0] else None)
         res.count("tsan:pair")
     res.traces_validated += len(lines)
     seen = set()
@@ -1112,7 +1136,9 @@ def run(ctx, res):
     exe = ctx.build_repo("tsan")
     tsan_harness(ctx, res)
     tsan_pairs(ctx, res, M)
-    tsan_cli(ctx, res, M, exe, thorough_runs(ctx)[:6 if undis else 3])
+    allruns = thorough_runs(ctx)
+    k = ctx.seed % len(TS.OPTION_SETS)
+    tsan_cli(ctx, res, M, exe, allruns[:6] if undis else [allruns[k], allruns[(k + 5) % len(TS.OPTION_SETS)]])
     res.extra["tsan_quick"]["ran"] = True
 
 
